@@ -61,6 +61,7 @@ type spec struct {
 	Out       string     `json:"out"`
 	Replay    *replay    `json:"replay,omitempty"`
 	Replays   []replay   `json:"replays,omitempty"`
+	Repeat    int        `json:"repeat,omitempty"`
 	MaxWallS  float64    `json:"max_wall_s,omitempty"`
 	KeepTrace bool       `json:"keep_trace,omitempty"`
 	Known     []knownSig `json:"known,omitempty"`
@@ -81,6 +82,7 @@ type violation struct {
 
 type runViolation struct {
 	Run       int             `json:"run"`
+	ChunkFrom int             `json:"chunk_from"`
 	RunSeed   uint64          `json:"run_seed"`
 	Violation violation       `json:"violation"`
 	Plan      json.RawMessage `json:"plan"`
@@ -588,29 +590,100 @@ func finalizeViolation(b *build, c *checkCfg, v *runViolation) (string, bool, st
 			got = &r1.Violations[i]
 		}
 	}
-	if got == nil {
-		return "", false, "minimised case does not violate"
-	}
 	h1, h2 := r1.Hashes["-1"], r2.Hashes["-1"]
-	if h1 == "" || h1 != h2 {
-		return "", false, fmt.Sprintf("history hash differs between two replays (%s vs %s)", h1, h2)
+	mode, repro := "single-run", "2 of 2 fresh-process replays, identical history hash"
+	var chunk map[string]interface{}
+	if got == nil || h1 == "" || h1 != h2 {
+		// The simulator decides every interleaving, clock movement and fault, but the code under
+		// test can carry nondeterminism of its own (sync.Pool reuse across requests, map / sync.Map
+		// iteration order, state left by earlier runs of the same process). Such a violation was
+		// still observed on the real code: try harder to reproduce it before giving up.
+		got = nil
+		plan, sched = v.Plan, v.Schedule
+		ok, n := 0, 0
+		for n < 6 && ok < 2 {
+			n++
+			r, err := b.runWorker(&spec{Profile: c.profile, Tier: c.tier, Replay: &replay{Plan: plan, Schedule: sched}, KeepTrace: true}, 120*time.Second)
+			if err != nil {
+				continue
+			}
+			for i := range r.Violations {
+				if r.Violations[i].Violation.Property+"/"+r.Violations[i].Violation.Kind == want {
+					if got == nil {
+						got = &r.Violations[i]
+						h1 = r.Hashes["-1"]
+					}
+					ok++
+					break
+				}
+			}
+		}
+		if got != nil {
+			repro = fmt.Sprintf("%d of %d fresh-process replays of the recorded run (the behaviour depends on state outside the simulator's seams, e.g. sync.Pool reuse or map iteration order)", ok, n)
+		} else {
+			// replay the worker's chunk up to the failing run: same process history as the original observation
+			cnt := v.Run - v.ChunkFrom + 1
+			for try := 0; try < 2 && got == nil; try++ {
+				r, err := b.runWorker(&spec{Profile: c.profile, Tier: c.tier, Seed: c.seed, From: v.ChunkFrom, Count: cnt}, 600*time.Second)
+				if err != nil {
+					continue
+				}
+				for i := range r.Violations {
+					rv := &r.Violations[i]
+					if rv.Run == v.Run && rv.Violation.Property+"/"+rv.Violation.Kind == want {
+						got = rv
+						h1 = rv.Hash
+						plan, sched = rv.Plan, rv.Schedule
+					}
+				}
+			}
+			if got == nil {
+				// last resort: the recorded run repeated many times in one fresh process (every
+				// repetition builds new maps / pools: new per-map hash seeds)
+				r, err := b.runWorker(&spec{Profile: c.profile, Tier: c.tier, Replay: &replay{Plan: v.Plan, Schedule: v.Schedule}, Repeat: 600, KeepTrace: false}, 900*time.Second)
+				if err == nil {
+					for i := range r.Violations {
+						if r.Violations[i].Violation.Property+"/"+r.Violations[i].Violation.Kind == want {
+							got = &r.Violations[i]
+							h1 = got.Hash
+							plan, sched = v.Plan, v.Schedule
+							mode = "repeat"
+							repro = fmt.Sprintf("reproduced after %d repetitions of the recorded run in one fresh process (the behaviour depends on per-process / per-map random state of the Go runtime, e.g. map hash seeds or sync.Pool placement)", r.Probes["replay-repetitions"])
+						}
+					}
+				}
+				if got == nil {
+					return "", false, "the violation was observed once but the recorded run (6 fresh processes), its chunk prefix (2 fresh processes) and 600 repetitions in one process did not reproduce it"
+				}
+			}
+			if mode != "repeat" {
+				mode = "chunk-prefix"
+				repro = "reproduced by re-running the worker's chunk of runs up to the failing one in a fresh process (the behaviour depends on state left by earlier requests of the same process, e.g. sync.Pool contents)"
+				chunk = map[string]interface{}{"base_seed": c.seed, "from": v.ChunkFrom, "count": cnt, "tier": c.tier}
+			}
+		}
 	}
 	dir := filepath.Join(verifRoot, "replays", c.prop)
 	_ = os.MkdirAll(dir, 0o755)
 	path := filepath.Join(dir, fmt.Sprintf("%s-%d.json", v.Violation.Kind, v.RunSeed))
 	file := map[string]interface{}{
-		"property":  c.prop,
-		"profile":   c.profile,
-		"violation": got.Violation,
-		"seed":      v.RunSeed,
-		"base_seed": c.seed,
-		"run_index": v.Run,
-		"plan":      plan,
-		"schedule":  got.Schedule,
-		"hash":      h1,
-		"original":  map[string]interface{}{"ops": countOps(v.Plan), "steps": len(v.Schedule)},
-		"minimised": map[string]interface{}{"ops": countOps(plan), "steps": len(got.Schedule)},
-		"trace":     got.Trace,
+		"property":        c.prop,
+		"profile":         c.profile,
+		"violation":       got.Violation,
+		"seed":            v.RunSeed,
+		"base_seed":       c.seed,
+		"run_index":       v.Run,
+		"plan":            plan,
+		"schedule":        got.Schedule,
+		"hash":            h1,
+		"original":        map[string]interface{}{"ops": countOps(v.Plan), "steps": len(v.Schedule)},
+		"minimised":       map[string]interface{}{"ops": countOps(plan), "steps": len(got.Schedule)},
+		"trace":           got.Trace,
+		"replay_mode":     mode,
+		"reproducibility": repro,
+	}
+	if chunk != nil {
+		file["chunk"] = chunk
 	}
 	data, _ := json.MarshalIndent(file, "", " ")
 	if err := os.WriteFile(path, data, 0o644); err != nil {
@@ -886,36 +959,62 @@ func cmdReplay(args []string) int {
 		fatal2("%v", err)
 	}
 	var f struct {
-		Property  string          `json:"property"`
-		Profile   string          `json:"profile"`
-		Violation violation       `json:"violation"`
-		Plan      json.RawMessage `json:"plan"`
-		Schedule  []string        `json:"schedule"`
-		Hash      string          `json:"hash"`
+		Property        string          `json:"property"`
+		Profile         string          `json:"profile"`
+		Violation       violation       `json:"violation"`
+		Plan            json.RawMessage `json:"plan"`
+		Schedule        []string        `json:"schedule"`
+		Hash            string          `json:"hash"`
+		ReplayMode      string          `json:"replay_mode"`
+		Reproducibility string          `json:"reproducibility"`
+		Chunk           *struct {
+			BaseSeed uint64 `json:"base_seed"`
+			From     int    `json:"from"`
+			Count    int    `json:"count"`
+			Tier     string `json:"tier"`
+		} `json:"chunk"`
 	}
 	if err := json.Unmarshal(data, &f); err != nil {
 		fatal2("%v", err)
 	}
 	b := prepare(f.Violation.Kind == "data-race")
 	defer b.cleanup()
-	r, err := b.runWorker(&spec{Profile: f.Profile, Replay: &replay{Plan: f.Plan, Schedule: f.Schedule}, KeepTrace: true}, 300*time.Second)
-	if err != nil {
-		fatal2("%v", err)
-	}
-	for _, s := range r.Samples {
-		for _, l := range s.Trace {
-			fmt.Println(l)
-		}
-	}
-	fmt.Printf("history hash %s (recorded %s)\n", r.Hashes["-1"], f.Hash)
 	want := f.Violation.Property + "/" + f.Violation.Kind
-	for _, v := range r.Violations {
-		if v.Violation.Property+"/"+v.Violation.Kind == want {
-			fmt.Printf("VIOLATION property=%s replay=%s\n  kind=%s signature=%q\n  %s\n", f.Property, args[0], v.Violation.Kind, v.Violation.Sig, v.Violation.Detail)
-			return 1
+	tries := 1
+	if f.ReplayMode != "single-run" || !strings.HasPrefix(f.Reproducibility, "2 of 2") {
+		tries = 6
+	}
+	for t := 0; t < tries; t++ {
+		var r *result
+		var err error
+		if f.ReplayMode == "chunk-prefix" && f.Chunk != nil {
+			r, err = b.runWorker(&spec{Profile: f.Profile, Tier: f.Chunk.Tier, Seed: f.Chunk.BaseSeed, From: f.Chunk.From, Count: f.Chunk.Count, KeepTrace: false}, 900*time.Second)
+		} else {
+			rep := 0
+			if f.ReplayMode == "repeat" {
+				rep = 1000
+			}
+			r, err = b.runWorker(&spec{Profile: f.Profile, Replay: &replay{Plan: f.Plan, Schedule: f.Schedule}, Repeat: rep, KeepTrace: rep == 0}, 900*time.Second)
+		}
+		if err != nil {
+			fatal2("%v", err)
+		}
+		if t == 0 {
+			for _, s := range r.Samples {
+				for _, l := range s.Trace {
+					fmt.Println(l)
+				}
+			}
+			fmt.Printf("history hash %s (recorded %s)\n", r.Hashes["-1"], f.Hash)
+		}
+		for _, v := range r.Violations {
+			if v.Violation.Property+"/"+v.Violation.Kind == want {
+				fmt.Printf("VIOLATION property=%s replay=%s\n  kind=%s signature=%q\n  %s\n", f.Property, args[0], v.Violation.Kind, v.Violation.Sig, v.Violation.Detail)
+				return 1
+			}
 		}
 	}
-	fmt.Printf("replay of %s: violation %s did not occur on this tree\n", args[0], want)
+	fmt.Printf("replay of %s: violation %s did not occur on this tree (%d attempt(s))\n", args[0], want, tries)
 	return 0
 }
 
